@@ -211,6 +211,32 @@ class Check:
         return {}
 
 
+def run_trace(check, trace):
+    """Single entry point for executing a trace: resets per-execution
+    simulator state (name streams) so that execution is a pure function of
+    the trace."""
+    mod = sys.modules.get("sim.simproc")
+    if mod is not None:
+        mod.NAMES.n = 0
+    saved = sys.stdout
+    sys.stdout = _NullOut()      # the SUT prints; only the harness reports
+    try:
+        return check.execute(json.loads(json.dumps(trace)))
+    finally:
+        sys.stdout = saved
+
+
+class _NullOut:
+    def write(self, s):
+        return len(s)
+
+    def flush(self):
+        pass
+
+    def isatty(self):
+        return False
+
+
 # --------------------------------------------------------------------------
 # worker side
 
@@ -221,6 +247,7 @@ def _worker_init(check):
     global _CHECK
     _CHECK = check
     faulthandler.enable()
+    sys.stdout = _NullOut()      # the SUT prints; only the parent reports
     check.setup_worker()
 
 
@@ -242,9 +269,9 @@ def _run_batch(args):
                 rng = random.Random(seed)
                 trace = check.gen(rng, tier, idx)
                 trace = json.loads(json.dumps(trace))   # enforce serialisable
-                res = check.execute(trace)
+                res = run_trace(check, trace)
                 if recheck_every and idx % recheck_every == 0:
-                    res2 = check.execute(json.loads(json.dumps(trace)))
+                    res2 = run_trace(check, trace)
                     if res2.digest != res.digest:
                         raise HarnessError(
                             f"non-deterministic execution idx={idx} "
@@ -288,8 +315,7 @@ def minimise(check, trace, key, budget_s, max_exec=4000):
                 break
             execs += 1
             try:
-                cand = json.loads(json.dumps(cand))
-                res = check.execute(cand)
+                res = run_trace(check, cand)
             except KeyboardInterrupt:
                 raise
             except BaseException:  # noqa: BLE001 - invalid candidate, skip
@@ -341,7 +367,7 @@ def replay_main(check, path):
     with open(path) as f:
         doc = json.load(f)
     check.setup_worker()
-    res = check.execute(doc["trace"])
+    res = run_trace(check, doc["trace"])
     want = doc["violation"]["key"]
     got = [v for v in res.violations if v.key == want]
     if got and (not doc.get("digest") or res.digest == doc["digest"]):
@@ -411,7 +437,7 @@ def _explore(check, script_file, args):
         seed = run_seed(base_seed, check.pid, args.one)
         trace = check.gen(random.Random(seed), tier, args.one)
         print(json.dumps(trace, indent=1)[:6000])
-        res = check.execute(json.loads(json.dumps(trace)))
+        res = run_trace(check, trace)
         print("digest", res.digest, "steps", res.steps, "sig", res.sig)
         print("faults", res.faults, "probes", res.probes)
         for v in res.violations:
@@ -493,7 +519,7 @@ def _explore(check, script_file, args):
         rec, v = by_key[key]
         small, execs = minimise(check, rec["trace"], v["key"],
                                 check.shrink_budget_s)
-        res = check.execute(json.loads(json.dumps(small)))
+        res = run_trace(check, small)
         vv = next((x for x in res.violations if x.key == v["key"]), None)
         if vv is None:
             raise HarnessError(f"violation {v} did not reproduce in-process "
@@ -523,7 +549,7 @@ def _explore(check, script_file, args):
                         len(by_key), known_hit, workers)
     zero = [p for p in check.expected_probes
             if agg["probes"].get(p, 0) == 0]
-    if zero:
+    if zero and tier == "thorough":
         print(f"[{check.pid}] WARNING probes never hit: {zero}")
     rate = agg["evals"] / wall_explore * 3600 if wall_explore else 0
     print(f"[{check.pid}] runs={agg['evals']} skipped={agg['skipped']} "
